@@ -8,7 +8,7 @@ mod prng;
 mod store;
 
 use serde_json::{json, Value};
-use std::collections::BTreeMap;
+use std::collections::{BTreeMap, HashMap};
 use std::io::{BufRead, Write};
 use std::sync::{Arc, Mutex};
 use std::time::Duration;
@@ -114,51 +114,15 @@ fn cmd_gen(args: &[String]) {
     }
 }
 
-fn cmd_hist(args: &[String]) {
-    let specs_path = arg(args, "--specs").expect("--specs");
-    let out_dir = arg(args, "--out").expect("--out");
-    let jobs: usize = arg(args, "--jobs").and_then(|s| s.parse().ok()).unwrap_or(8);
-    let timeout_ms: u64 = arg(args, "--timeout-ms").and_then(|s| s.parse().ok()).unwrap_or(10_000);
-    let bundle: usize = arg(args, "--bundle").and_then(|s| s.parse().ok()).unwrap_or(20);
-    std::fs::create_dir_all(&out_dir).unwrap();
-    let f = std::fs::File::open(&specs_path).expect("specs file");
-    let specs: Vec<Value> = std::io::BufReader::new(f)
-        .lines()
-        .filter_map(|l| l.ok())
-        .filter(|l| !l.trim().is_empty())
-        .map(|l| serde_json::from_str(&l).expect("spec json"))
-        .collect();
-    let queue = Arc::new(Mutex::new(specs.into_iter().rev().collect::<Vec<_>>()));
-    let results = Arc::new(Mutex::new(Vec::<hist::RunResult>::new()));
-    let mut handles = vec![];
-    for _ in 0..jobs {
-        let q = queue.clone();
-        let res = results.clone();
-        handles.push(std::thread::spawn(move || loop {
-            let spec = { q.lock().unwrap().pop() };
-            match spec {
-                Some(s) => {
-                    let r = hist::run_spec(s, Duration::from_millis(timeout_ms));
-                    res.lock().unwrap().push(r);
-                }
-                None => break,
-            }
-        }));
-    }
-    for h in handles {
-        h.join().unwrap();
-    }
-    let mut results = std::mem::take(&mut *results.lock().unwrap());
-    results.sort_by_key(|r| r.id);
-    let mut summary = vec![];
-    let mut nb = 0;
-    for chunk in results.chunks(bundle) {
+fn write_bundle(out_dir: &str, nb: usize, chunk: &[hist::RunResult]) -> Vec<(u64, Value)> {
+    let mut summary: Vec<(u64, Value)> = vec![];
+    {
         let mut items: BTreeMap<String, Value> = BTreeMap::new();
         let mut revs: BTreeMap<String, Value> = BTreeMap::new();
         let base = format!("{}/b{:04}", out_dir, nb);
         let mut tf = std::io::BufWriter::new(std::fs::File::create(format!("{}.trace.ndjson", base)).unwrap());
         let mut nev = 0;
-        for r in chunk {
+        for r in chunk.iter() {
             let t = r.tables.lock().unwrap_or_else(|e| e.into_inner());
             for (k, v) in &t.items {
                 items.insert(k.clone(), v.clone());
@@ -172,7 +136,7 @@ fn cmd_hist(args: &[String]) {
                 writeln!(tf, "{}", e).unwrap();
                 nev += 1;
             }
-            summary.push(json!({"run": r.id, "events": r.events.len(), "timeout": r.timeout, "ms": r.wall_ms as u64, "bundle": nb}));
+            summary.push((r.id, json!({"run": r.id, "events": r.events.len(), "timeout": r.timeout, "ms": r.wall_ms as u64, "bundle": nb})));
         }
         tf.flush().unwrap();
         let mut f = std::io::BufWriter::new(std::fs::File::create(format!("{}.items.ndjson", base)).unwrap());
@@ -189,8 +153,66 @@ fn cmd_hist(args: &[String]) {
         }
         f.flush().unwrap();
         let _ = nev;
-        nb += 1;
     }
+    summary
+}
+
+fn cmd_hist(args: &[String]) {
+    let specs_path = arg(args, "--specs").expect("--specs");
+    let out_dir = arg(args, "--out").expect("--out");
+    let jobs: usize = arg(args, "--jobs").and_then(|s| s.parse().ok()).unwrap_or(8);
+    let timeout_ms: u64 = arg(args, "--timeout-ms").and_then(|s| s.parse().ok()).unwrap_or(10_000);
+    let bundle: usize = arg(args, "--bundle").and_then(|s| s.parse().ok()).unwrap_or(20);
+    std::fs::create_dir_all(&out_dir).unwrap();
+    let f = std::fs::File::open(&specs_path).expect("specs file");
+    let specs: Vec<Value> = std::io::BufReader::new(f)
+        .lines()
+        .filter_map(|l| l.ok())
+        .filter(|l| !l.trim().is_empty())
+        .map(|l| serde_json::from_str(&l).expect("spec json"))
+        .collect();
+    // Runs are handed out in file order; a bundle (`bundle` consecutive runs) is written, and its recorded
+    // events dropped, as soon as its last run finishes: memory stays bounded however many runs a tier asks for.
+    let n = specs.len();
+    let queue = Arc::new(Mutex::new(specs.into_iter().enumerate().rev().collect::<Vec<_>>()));
+    let pending = Arc::new(Mutex::new(HashMap::<usize, Vec<hist::RunResult>>::new()));
+    let summary = Arc::new(Mutex::new(Vec::<(u64, Value)>::new()));
+    let mut handles = vec![];
+    for _ in 0..jobs {
+        let q = queue.clone();
+        let pend = pending.clone();
+        let summ = summary.clone();
+        let out_dir = out_dir.clone();
+        handles.push(std::thread::spawn(move || loop {
+            let spec = { q.lock().unwrap().pop() };
+            match spec {
+                Some((pos, s)) => {
+                    let r = hist::run_spec(s, Duration::from_millis(timeout_ms));
+                    let b = pos / bundle;
+                    let expect = std::cmp::min(bundle, n - b * bundle);
+                    let done = {
+                        let mut p = pend.lock().unwrap();
+                        let v = p.entry(b).or_default();
+                        v.push(r);
+                        if v.len() == expect { p.remove(&b) } else { None }
+                    };
+                    if let Some(mut runs) = done {
+                        runs.sort_by_key(|r| r.id);
+                        let rows = write_bundle(&out_dir, b, &runs);
+                        summ.lock().unwrap().extend(rows);
+                    }
+                }
+                None => break,
+            }
+        }));
+    }
+    for h in handles {
+        h.join().unwrap();
+    }
+    let nb = (n + bundle - 1) / bundle;
+    let mut rows = std::mem::take(&mut *summary.lock().unwrap());
+    rows.sort_by_key(|r| r.0);
+    let summary: Vec<Value> = rows.into_iter().map(|r| r.1).collect();
     std::fs::write(format!("{}/summary.json", out_dir), serde_json::to_string(&json!({"bundles": nb, "runs": summary})).unwrap()).unwrap();
     // abandoned (hung) worker threads must not keep the process alive
     std::process::exit(0);
